@@ -138,7 +138,9 @@ def run(run):
                 run.violation("result depends on the schedule (%s): %s vs %s [%s]" % (pol, _short(c), _short(ref), tag[:300]), {"kind": "schedule", "policy": pol, "workload": tag})
                 break
         for nthreads in ((1, 4) if quick else (1, 2, 4, 8, 16)):
-            r = try_(lambda: dask.compute(coll, scheduler="threads", num_workers=nthreads)[0])
+            # the same optimized plan that was analysed above (dask.compute(coll) would lower the *unoptimized* plan)
+            oc = rt.dx.new_collection(e[1])
+            r = try_(lambda: dask.compute(oc, scheduler="threads", num_workers=nthreads)[0])
             if r[0] == "ok" and ref is not None:
                 c = canon(r[1], ordered and not disk, labels)
                 if c != ref:
